@@ -53,10 +53,12 @@ claimed = {
  "C20": ("fault_enumeration", "self-test corruption through the existing callback seam, enumerated",
    "For each of the 12 init configurations x {explicit init, init_mb_mgr_auto under a CPUID mask}: clean init (pass bit, errno 0, START/CORRUPT/PASS triples, every algorithm of README 'Self-Test' announced with its type), every single self-test entry corrupted (exhaustive): FAIL for exactly that entry, pass bit clear, IMB_ERR_SELFTEST, clean re-init passes again; pairs (sampled quick / all thorough), random subsets, all entries; also with jobs parked in the manager.",
    "The documented algorithm list is matched by substring on the description strings."),
+ "C19": ("exploration", "instruction-level deterministic execution (single-step seam) of the same work item under two keys; trace equality",
+   "The simulator's single-step tracer executes the real library code of SSE type 1 and AVX2 type 1 one instruction at a time (trap flag) with the library's data segments, the key schedule, IV, source and destination made inaccessible, so that every instruction address and every (instruction, data address) pair is recorded. The same work item (DES, 3DES, DOCSIS-DES with a partial block, KASUMI F8/F9, SNOW3G UEA2/UIA2; job API submit+flush and the direct single-buffer functions) is executed with two keys (random pairs; thorough: also all-zero vs all-ones and single-bit keys, both directions) at identical addresses; the two traces must be identical in length, instruction sequence and data-address sequence.",
+   "This check uses the simulator's execution seam as an observer; it has no schedule or fault dimension (the property has none) - the varied quantity is the secret. Sampled key pairs only: a key-dependent branch that both keys take identically is not seen (no taint tracking). Stack accesses and accesses to the manager structure are not recorded. Single-stepping costs about 35 us per instruction in this VM, which bounds the number of pairs."),
 }
 na = {
  "C13": "not built yet in this revision: residue scanner planned",
- "C19": "not built yet in this revision: single-step tracer planned; may end as genuinely not applicable",
 }
 def build():
     checks=[]
